@@ -47,6 +47,13 @@ def main():
     out = os.path.join(ROOT, "seeded", "%s-%s" % (a.prop, a.k) if a.round == "1" else "%s-r%s-%s" % (a.prop, a.round, a.k))
     os.makedirs(out, exist_ok=True)
     meta = {"property": a.prop, "patch": "patch.diff", "demonstration": "demo.py", "confirmed": {}, "checks": {}}
+    old = None
+    if os.path.exists(os.path.join(out, "meta.json")):
+        old = json.load(open(os.path.join(out, "meta.json")))
+        if a.skip_confirm:
+            meta["confirmed"] = old.get("confirmed", {})
+        # the first evaluation is kept: it records what the checks did before any strengthening
+        meta["first_run"] = old.get("first_run") or {"checks": old.get("checks", {}), "detected_by": old.get("detected_by", [])}
     if not a.skip_confirm:
         sh("git checkout -- . && git clean -fdq", cwd=wt)
         rc, o = sh("git apply --check %s" % patch, cwd=wt)
